@@ -1,7 +1,24 @@
 import copy
+import functools
+import threading
 from typing import Any, Dict, Hashable, List, Tuple
 
 from deephyper.evaluator.storage._storage import Storage
+
+
+def _synchronized(method):
+    """Runs the method while holding the lock of the storage.
+
+    The storage is shared between threads (thread-based evaluators, one server thread per client
+    of ``SharedMemoryStorage``) and several methods iterate over or deep-copy its dictionaries.
+    """
+
+    @functools.wraps(method)
+    def wrapper(self, *args, **kwargs):
+        with self._lock:
+            return method(self, *args, **kwargs)
+
+    return wrapper
 
 
 class MemoryStorage(Storage):
@@ -15,6 +32,7 @@ class MemoryStorage(Storage):
 
         self._search_id_counter = 0
         self._data = {}
+        self._lock = threading.RLock()
 
     def _connect(self):
         self.connected = True
@@ -25,8 +43,10 @@ class MemoryStorage(Storage):
 
     def __setstate__(self, newstate):
         self.__dict__.update(newstate)
+        self._lock = threading.RLock()
         self.connect()
 
+    @_synchronized
     def create_new_search(self) -> Hashable:
         """Create a new search in the store and returns its identifier.
 
@@ -38,6 +58,7 @@ class MemoryStorage(Storage):
         self._data[search_id] = {"job_id_counter": 0, "data": {}, "values": {}}
         return search_id
 
+    @_synchronized
     def create_new_job(self, search_id: Hashable) -> Hashable:
         """Creates a new job in the store and returns its identifier.
 
@@ -61,6 +82,7 @@ class MemoryStorage(Storage):
         }
         return job_id
 
+    @_synchronized
     def store_job(self, job_id: Hashable, key: Hashable, value: Any) -> None:
         """Stores the value corresponding to key for job_id.
 
@@ -72,6 +94,7 @@ class MemoryStorage(Storage):
         search_id, partial_id = job_id.split(".")
         self._data[search_id]["data"][partial_id][key] = value
 
+    @_synchronized
     def store_job_in(self, job_id: Hashable, args: Tuple = None, kwargs: Dict = None) -> None:
         """Stores the input arguments of the executed job.
 
@@ -82,6 +105,7 @@ class MemoryStorage(Storage):
         """
         self.store_job(job_id, key="in", value={"args": args, "kwargs": kwargs})
 
+    @_synchronized
     def store_job_out(self, job_id: Hashable, value: Any) -> None:
         """Stores the output value of the executed job.
 
@@ -91,6 +115,7 @@ class MemoryStorage(Storage):
         """
         self.store_job(job_id, key="out", value=value)
 
+    @_synchronized
     def store_job_metadata(self, job_id: Hashable, key: Hashable, value: Any) -> None:
         """Stores other metadata related to the execution of the job.
 
@@ -102,6 +127,7 @@ class MemoryStorage(Storage):
         search_id, partial_id = job_id.split(".")
         self._data[search_id]["data"][partial_id]["metadata"][key] = value
 
+    @_synchronized
     def load_all_search_ids(self) -> List[Hashable]:
         """Loads the identifiers of all recorded searches.
 
@@ -110,6 +136,7 @@ class MemoryStorage(Storage):
         """
         return list(self._data.keys())
 
+    @_synchronized
     def load_all_job_ids(self, search_id: Hashable) -> List[Hashable]:
         """Loads the identifiers of all recorded jobs in the search.
 
@@ -123,6 +150,7 @@ class MemoryStorage(Storage):
         job_ids = [f"{search_id}.{p_id}" for p_id in partial_ids]
         return job_ids
 
+    @_synchronized
     def load_search(self, search_id: Hashable) -> dict:
         """Loads the data of a search.
 
@@ -135,6 +163,7 @@ class MemoryStorage(Storage):
         data = self._data[search_id]["data"]
         return copy.deepcopy(data)
 
+    @_synchronized
     def load_job(self, job_id: Hashable) -> dict:
         """Loads the data of a job.
 
@@ -148,6 +177,7 @@ class MemoryStorage(Storage):
         data = self._data[search_id]["data"][partial_id]
         return copy.deepcopy(data)
 
+    @_synchronized
     def store_search_value(self, search_id: Hashable, key: Hashable, value: Any) -> None:
         """Stores the value corresponding to key for search_id.
 
@@ -158,6 +188,7 @@ class MemoryStorage(Storage):
         """
         self._data[search_id]["values"][key] = value
 
+    @_synchronized
     def load_search_value(self, search_id: Hashable, key: Hashable) -> Any:
         """Loads the value corresponding to key for search_id.
 
@@ -167,6 +198,7 @@ class MemoryStorage(Storage):
         """
         return self._data[search_id]["values"][key]
 
+    @_synchronized
     def load_metadata_from_all_jobs(self, search_id: Hashable, key: Hashable) -> List[Any]:
         """Loads a given metadata value from all jobs.
 
@@ -185,6 +217,7 @@ class MemoryStorage(Storage):
                 values.append(value_i)
         return values
 
+    @_synchronized
     def load_out_from_all_jobs(self, search_id: Hashable) -> List[Any]:
         """Loads the output value from all jobs.
 
@@ -201,6 +234,7 @@ class MemoryStorage(Storage):
                 values.append(value_i)
         return values
 
+    @_synchronized
     def load_jobs(self, job_ids: List[Hashable]) -> dict:
         """Load all data from a given list of jobs' identifiers.
 
@@ -217,6 +251,7 @@ class MemoryStorage(Storage):
             data[job_id] = job_data
         return data
 
+    @_synchronized
     def store_job_status(self, job_id: Hashable, job_status: int):
         """Stores the new job status.
 
@@ -226,6 +261,7 @@ class MemoryStorage(Storage):
         """
         self.store_job(job_id=job_id, key="status", value=job_status)
 
+    @_synchronized
     def load_job_status(self, job_id: Hashable) -> int:
         """Loads the status of a job.
 
